@@ -46,6 +46,8 @@ func cmdGen(args []string) {
 			b = g.behC17()
 		case "C13":
 			b = g.behC13()
+		case "C01":
+			b = g.behC01()
 		default:
 			if fn, ok := genFns[*prop]; ok {
 				b = fn(g)
@@ -572,4 +574,79 @@ func (g *gen) behC13() M {
 		steps = append(steps, send(M{"t": "c"}), send(M{"t": "c"}), send(M{"t": "S"}))
 	}
 	return M{"cfg": baseCfg(), "steps": steps}
+}
+
+func (g *gen) trivialQ() M {
+	g.id++
+	return M{"id": g.id, "parse": "ok", "stmts": []any{M{"id": g.id, "cols": []any{}, "oids": []any{}, "prog": []any{M{"op": "complete", "tag": "OK"}, M{"op": "ret", "r": "nil"}}}}}
+}
+
+// behC01: authentication with random credentials, every kind of message in
+// place of the password, random continuations (pipelined or not).
+func (g *gen) behC01() M {
+	cfg := baseCfg()
+	cfg["auth"] = "clear"
+	cfg["mw"] = []any{"ok"}
+	cfg["term"] = "ok"
+	cfg["limit"] = 8192
+	steps := []any{}
+	if g.chance(0.2) {
+		steps = append(steps, send(M{"t": "SSLRequest"}))
+	}
+	kvs := []any{}
+	if g.chance(0.9) {
+		kvs = append(kvs, M{"k": "user", "v": g.text(12)})
+	}
+	if g.chance(0.7) {
+		kvs = append(kvs, M{"k": "database", "v": g.text(12)})
+	}
+	if g.chance(0.3) {
+		kvs = append(kvs, M{"k": "application_name", "v": g.text(8)})
+	}
+	steps = append(steps, send(M{"t": "Startup", "term": true, "kvs": kvs}))
+	var m M
+	switch g.rng.Intn(12) {
+	case 0, 1, 2:
+		m = M{"t": "p", "pw": "good"}
+	case 3, 4, 5:
+		m = M{"t": "p", "pw": "bad"}
+	case 6:
+		m = M{"t": "p", "pw": "err"}
+	case 7:
+		m = M{"t": "Q", "q": g.trivialQ()}
+	case 8:
+		m = M{"t": g.pick("X", "S", "H", "U", "d", "c")}
+	case 9:
+		m = M{"t": "Bad", "ty": "p", "cls": "nonul"}
+	case 10:
+		m = M{"t": "Big", "ty": g.pick("p", "Q"), "over": 1 + g.rng.Intn(50)}
+	default:
+		m = M{"t": "Tiny", "ty": "p", "declared": g.rng.Intn(4)}
+	}
+	st := send(m)
+	if g.chance(0.5) {
+		st["nowait"] = true
+	}
+	steps = append(steps, st)
+	n := g.rng.Intn(4)
+	for i := 0; i < n; i++ {
+		switch g.rng.Intn(5) {
+		case 0:
+			m = M{"t": "Q", "q": g.trivialQ()}
+		case 1:
+			m = M{"t": "P", "name": "", "q": g.trivialQ(), "noids": 0}
+		case 2:
+			m = M{"t": "S"}
+		case 3:
+			m = M{"t": "p", "pw": "good"}
+		default:
+			m = M{"t": "X"}
+		}
+		st := send(m)
+		if g.chance(0.5) {
+			st["nowait"] = true
+		}
+		steps = append(steps, st)
+	}
+	return M{"cfg": cfg, "steps": steps}
 }
